@@ -8,7 +8,7 @@ import itertools
 
 from . import store_env as SE
 from .pymap_env import run as run_loop
-from .store_monitor import Probe, Shadow
+from .store_monitor import RECENT, Probe, Shadow
 from .store_trace import Trace, exec_label, random_trace
 from .store_env import StoreRun
 
@@ -48,6 +48,13 @@ class Monitored:
         for clause, what, obs in sh.feed(label, responses, server_sorted):
             self.failures.append({'clause': clause, 'what': what, 'obs': obs, 'step': idx,
                                   'session': s})
+        # what this client now believes about flags, for the comparison with the model's
+        # client (the identity of a position is taken from the server's list)
+        if sh.view is not None and server_sorted is not None and len(sh.view) == len(server_sorted) \
+                and isinstance(trace.steps[idx][2], dict):
+            trace.steps[idx][2]['beliefs'] = {
+                s: [(u, sorted(t.flags - {RECENT})) for t, u in zip(sh.view, server_sorted)
+                    if t.flags is not None]}
 
     async def checkpoint(self, run: StoreRun, trace: Trace, i: int, *, force: bool = False) -> None:
         if not force and (not self.checkpoint_every or (i + 1) % self.checkpoint_every):
@@ -284,7 +291,7 @@ class CaseEval:
                 mo = coqrun.eval_term(ctx.prop, 'mo', SE.HEADER, f'model_out {self.cases[b]} {k}%nat')
                 detail.update({'first_bad_step': k, 'label': repr(t.steps[k][0]),
                                'impl_responses': repr(t.steps[k][1]),
-                               'which (label_ok, responses, selections, mailboxes)': dg[-60:],
+                               'which (label_ok, responses, selections, mailboxes, beliefs)': dg[-70:],
                                'model': ' '.join(mo.split())[:1500]})
             ctx.disagreement(self.name, detail)
         return bad
